@@ -158,4 +158,19 @@ def effect_obligations(root=None):
             ob(m, q, "no-ambient-random", p_amb, "no use of numpy's / python's global random state, the library's global generator only as the documented default")
             ob(m, q, "no-module-state", p_state, "no global statement, no in-place update of a class-level attribute")
             ob(m, q, "no-identity-order", p_id, "no id() / hash() / iteration over a set")
+    # C04: in direct generation, bonds are created at exactly one site -- MolGen.attach_other (whose contract carries the property); the atom-graph route
+    # (graph_generate.AtomGraph.to_mol, stochastic_atom_graph._remove_extra_hydrogen_atoms) belongs to C17 / C18
+    sites = []
+    for m, t in trees.items():
+        for q, fn, chain, cls in _functions(t):
+            for n in _own_nodes(fn):
+                if isinstance(n, ast.Attribute) and n.attr in ("AddBond", "EditableMol", "RWMol", "RemoveBond", "RemoveAtom", "ReplaceAtom"):
+                    sites.append((m, q, n.attr, n.lineno))
+    bad = [f"{m}.{q} line {ln}: {a}" for m, q, a, ln in sites if not ((m == "mol_gen" and q == "MolGen.attach_other") or m in ("graph_generate", "stochastic_atom_graph"))]
+    o = Obligation("effects.mol_gen/effect[bonds-are-made-only-in-attach_other]", [], None, "effect", "effects.mol_gen", None, ["C04"],
+                   "RDKit molecule editing (EditableMol / AddBond / RWMol / Remove*) occurs in direct generation only inside MolGen.attach_other")
+    o.verdict = "refuted" if bad or not any(m == "mol_gen" and q == "MolGen.attach_other" and a == "AddBond" for m, q, a, _ in sites) else "discharged"
+    o.solver, o.seconds, o.detail = "syntactic", 0.0, "; ".join(bad)
+    o.model = o.detail or None
+    obs.append(o)
     return obs
